@@ -68,6 +68,17 @@ func zzSameAVP(got, want *AVP, label string) {
 	vAssert(got.Data.Type() == want.Data.Type(), label+": data type")
 }
 
+// zzC18_prior gives the message a history before Marshal: nothing, an AVP added by hand, or an
+// earlier Marshal of another value into the same message (Marshal replaces the AVP list).
+func zzC18_prior(m *Message) {
+	switch vChoice("prior", 3) {
+	case 1:
+		m.NewAVP(avp.OriginStateID, avp.Mbit, 0, datatype.Unsigned32(1))
+	case 2:
+		vAssert(m.Marshal(&zzS2{SessionID: "earlier"}) == nil, "earlier Marshal succeeds")
+	}
+}
+
 func zzC18_s1() {
 	src := zzS1{
 		OriginHost: datatype.DiameterIdentity(zzSymStr("oh", vLen("ohlen", 0, 3))),
@@ -87,6 +98,7 @@ func zzC18_s1() {
 		src.Supported = append(src.Supported, vU32("sup"))
 	}
 	m := NewRequest(CapabilitiesExchange, 0, dict.Default)
+	zzC18_prior(m)
 	err := m.Marshal(&src)
 	vAssert(err == nil, "Marshal succeeds on a supported struct")
 	if err != nil {
@@ -162,6 +174,7 @@ func zzC18_s2() {
 		src.ErrMessage = &s
 	}
 	m := NewRequest(CapabilitiesExchange, 0, dict.Default)
+	zzC18_prior(m)
 	err := m.Marshal(&src)
 	vAssert(err == nil, "Marshal succeeds on a supported struct")
 	if err != nil {
@@ -211,6 +224,7 @@ func zzC18_s3() {
 	}
 	vKnown("KF-C18-avp-fields-not-marshalled", true)
 	m := NewRequest(CapabilitiesExchange, 0, dict.Default)
+	zzC18_prior(m)
 	err := m.Marshal(&src)
 	vAssert(err == nil, "Marshal succeeds on AVP / *AVP / []*AVP fields")
 	if err != nil {
